@@ -260,6 +260,8 @@ def run(chk, facts, info):
     from . import c03_bounds, c08
     c03_bounds.run(chk, facts)
     c08.rule_funcargs(chk, facts, rule='C03-R8')
+    from . import c03_nullbelief
+    c03_nullbelief.run(chk, facts)
     chk.note('Decided: divisor non-zero (R1), stack-head null guards (R2), external integer bounds (R3), '
              'string-copy capacities (R4). Not decided: hangs, heap lifetime, code generators\' private buffers.')
     chk.assumptions.append('malloc results are non-null; zero-initialised globals with a non-zero default are '
